@@ -291,9 +291,11 @@ impl ModelG {
                 if none {
                     let f = self.file(*g);
                     f[*dst as usize % NREG] = None;
-                } else if ss.iter().any(|s| s.k == 2) {
-                    // unreduced scalars are outside what C04 promises for the multiscalar entry points: the value is
-                    // not decided here (it is still logged, so configurations are compared on it), the handle dies
+                } else if *g == 0 && ss.iter().any(|s| s.k == 2) {
+                    // unreduced scalars are outside what C04 promises for the multiscalar entry points: on Edwards points
+                    // (where s and s mod l differ on torsion components) the value is not decided here (it is still
+                    // logged, so configurations are compared on it) and the handle dies. In the prime-order Ristretto
+                    // group the sum is the same element however the integers are read, so there it is decided below.
                     o.any("enc");
                     if *g == 0 {
                         o.any("aff");
